@@ -2,7 +2,6 @@ package harness
 
 import (
 	"runtime"
-	"testing/synctest"
 )
 
 // Kernel is the seeded cooperative scheduler of engine E2 (and, with
@@ -315,7 +314,7 @@ func (k *Kernel) Run(stop func() bool) int {
 	raceDisable()
 	defer raceEnable()
 	for {
-		synctest.Wait()
+		bubbleWait()
 		if stop != nil && stop() {
 			return RunIdle
 		}
@@ -444,10 +443,10 @@ func (k *Kernel) KillAll() {
 		if k.parked[t] {
 			k.parked[t] = false
 			k.wake[t] <- struct{}{}
-			synctest.Wait()
+			bubbleWait()
 		}
 	}
-	synctest.Wait()
+	bubbleWait()
 }
 
 // Recorded returns the decision vector of the run.
